@@ -50,7 +50,9 @@ fn gen_series(rng: &mut Rng, lite: bool) -> Series {
     let nmax = if lite { 300.0 } else { 5000.0 };
     let n = rng.log_range(10.0, nmax).round() as usize;
     let kind = *rng.choose(&["ar", "ar", "ar+trend", "const+noise"]);
-    let s = rng.log_range(0.1, 100.0);
+    // innovation scale: mostly 0.1..100, sometimes down to 1e-3 so that, with offsets up to 1e6, the
+    // spread is as small as 1e-9 of the level (still far above the 2^-20 grid and f64 resolution)
+    let s = if rng.chance(0.25) { rng.log_range(1e-3, 0.1) } else { rng.log_range(0.1, 100.0) };
     let mut x: Vec<f64> = match kind {
         "const+noise" => (0..n).map(|_| s * rng.normal()).collect(),
         _ => {
@@ -560,6 +562,37 @@ fn one_series(cfg: &Cfg, rng: &mut Rng, rep: &mut Report) {
         }
         let full = oi == 0 && rng.chance(if cfg.thorough() { 0.05 } else { 0.1 });
         let Some(base) = check_forecasts(rep, &m, &f, x, sd, rng, full) else { continue };
+        // a model object fitted before (other data, same order) and refitted on x must equal the fresh fit
+        if oi == 0 {
+            let other: Vec<f64> = x.iter().rev().enumerate().map(|(i, v)| 0.5 * v + (i % 7) as f64 + 3.0).collect();
+            let refit = guard(|| {
+                let mut m2 = AR::new(p);
+                m2.fit(&other[..other.len().max(p + 2).min(other.len())]);
+                m2.fit(x);
+                m2
+            });
+            rep.seen("refit:same-object", 1);
+            match refit {
+                Ok(m2) => {
+                    let same = m2.coeffs.len() == m.coeffs.len() && m2.coeffs.iter().zip(&m.coeffs).all(|(a, b)| same_bits(*a, *b)) && same_bits(m2.intercept, m.intercept);
+                    rep.check("C13.fit.refit_equals_fresh", "refit:same-object", same, || json!({"p": p, "n": x.len(), "fresh_coeffs": jf(&m.coeffs), "refit_coeffs": jf(&m2.coeffs), "fresh_intercept": jnum(m.intercept), "refit_intercept": jnum(m2.intercept)}));
+                }
+                Err(msg) => {
+                    rep.check("C13.fit.refit_equals_fresh", "refit:same-object", false, || json!({"p": p, "panic": msg}));
+                }
+            }
+        }
+        // a history whose one-step forecast lands on the mean (to rounding) while the recursion is not
+        // at rest: the later forecasts must still follow the recursion
+        if p >= 2 && f.phi[1] != 0.0 && f.phi[0].is_finite() && (f.phi[0] / f.phi[1]).abs() < 1e6 {
+            let a = sd.max(1e-3);
+            let mut hist = vec![f.mu; p + 2];
+            let l = hist.len();
+            hist[l - 1] = f.mu + a;
+            hist[l - 2] = f.mu - a * f.phi[0] / f.phi[1];
+            rep.seen("history:mean-crossing", 1);
+            let _ = check_forecasts(rep, &m, &f, &hist, sd, rng, false);
+        }
         if oi == 0 {
             rep.sample(|| json!({"regime": regime, "n": x.len(), "p": p, "phi": jf(&f.phi), "intercept": jnum(f.mu), "kappa": jnum(f.kappa), "forecasts": jf(&base[..3])}));
         }
